@@ -69,6 +69,10 @@ class CallMixin:
                 c = False
             return t, V("bool", v.taint, c)
         op = UNOP[type(n.op)]
+        if op == "invert" and (v.kind & INTLIKE) and fr.fi is not None:
+            # Python's ~ on a plain int/bool is -x-1 (never a truth value): recorded for C05
+            key = (fr.fi.fq, getattr(n, "lineno", 0), getattr(n, "col_offset", 0))
+            self.int_inverts.setdefault(key, {"fi": fr.fi, "node": n, "kinds": set()})["kinds"].update(v.kind)
         if v.kind <= INTLIKE:
             c = NOCONST
             if v.const is not NOCONST:
